@@ -526,12 +526,21 @@ class RangeDimension(Dimension):
         super(RangeDimension, self).__init__(nixfile, data_array, index)
 
     def link_data_array(self, data_array, index):
+        # validate first: a refused link must not cost the dimension its ticks
+        msg = self._check_link_dimensionality(data_array, index)
+        if msg is not None:
+            raise IncompatibleDimensions(msg, "Dimension.link_data_array")
+        msg = self._check_index(index)
+        if msg is not None:
+            raise ValueError(msg)
         if "ticks" in self._h5group:
             # delete ticks to replace with link
             self._h5group.delete("ticks", False)
         super(RangeDimension, self).link_data_array(data_array, index)
 
     def link_data_frame(self, data_frame, index):
+        if not 0 <= index < len(data_frame.columns):
+            raise OutOfBounds("DataFrame index is out of bounds", index)
         if "ticks" in self._h5group:
             # delete ticks to replace with link
             self._h5group.delete("ticks", False)
